@@ -12,6 +12,12 @@ STYLES = ['plain', 'ties', 'coalesce', 'reinserting', 'empty', 'mixed',
           'pastadds', 'negkids', 'epsgrid', 'decimal', 'diverge', 'clockrel']
 
 
+class Runaway(Exception):
+    """raised by the recorder itself (hard guard, always on): one evolve_until executed more callbacks + integrations
+    than the history can account for (a callback fired again and again), or did not return within the wall-clock
+    watchdog.  Never raised on a correct implementation: generated histories terminate (dry-run `population`)."""
+
+
 class FuelGuard(Exception):
     """raised by the harness's own callback wrapper after N executions within one evolve_until: the stand-in for the
     model's fuel (the real loop of a zero-delay self-re-inserting callback would spin forever)"""
@@ -276,6 +282,17 @@ def spell(x, how, shared):
     return x, None
 
 
+KEEP_EVENTS = 4000     # events of one evolve_until kept in memory (a runaway implementation must not eat the machine)
+WATCHDOG_S = 20.0      # wall-clock limit of one evolve_until (an implementation spinning without calling anything)
+
+
+def hard_bound(ops):
+    """How many callbacks + integrate() calls ONE evolve_until of this history may execute before the recorder aborts it:
+    four times what the dry run of the whole history executes (each callback is preceded by at most one integration,
+    plus slack for the coalescing the dry run ignores), and at least 200."""
+    return 4 * population(ops, cap=4 * POPULATION_CAP) + 4 * sum(1 for op in ops if op[0] in ('add', 'evolve')) + 200
+
+
 def run_real(ops):
     """Execute a history on hcipy's DynamicOpticalSystem.  Returns per-evolve observations.
 
@@ -286,6 +303,7 @@ def run_real(ops):
     instant passes the system's clock object `self.t` itself back into add_callback.  Everything recorded is a float
     taken at the moment of the observation."""
     import hcipy
+    import signal
 
     class Sys(hcipy.DynamicOpticalSystem):
         def __init__(self):
@@ -293,7 +311,20 @@ def run_real(ops):
             self.events = []
 
         def integrate(self, dt):
-            self.events.append(('I', fl(dt), fl(self.t)))     # the stretch handed over, and the clock it starts from
+            record(('I', fl(dt), fl(self.t)))     # the stretch handed over, and the clock it starts from
+
+    bound = hard_bound(ops)
+    nrec = [0]         # callbacks + integrations of the running evolve_until
+
+    def record(ev):
+        nrec[0] += 1
+        if len(s.events) < KEEP_EVENTS:
+            s.events.append(ev)
+        if nrec[0] > bound:
+            raise Runaway('more than %d callbacks + integrations in one evolve_until' % bound)
+
+    def on_alarm(signum, frame):
+        raise Runaway('no return within %g s' % WATCHDOG_S)
 
     s = Sys()
     kids = {}
@@ -344,7 +375,7 @@ def run_real(ops):
         scheduled.append((t, ctr, cid))
 
         def cb():
-            s.events.append(('F', t, ctr, cid, fl(s.t)))
+            record(('F', t, ctr, cid, fl(s.t)))
             for d, child, kind in kids.get(cid, []):
                 if kind == 'clock':
                     tc = fl(s.t) + d                # the docstring idiom: self.t + period
@@ -388,11 +419,19 @@ def run_real(ops):
         elif op[0] == 'evolve':
             s.events = []
             nexec[0] = 0
+            nrec[0] = 0
             t0 = fl(s.t)
             n_sched0 = len(scheduled)
             status = 'ok'
             how = op[2] if len(op) > 2 else 'f'
             arg, mut = spelled(op[1], how)
+            why = ''
+            old_handler = None
+            try:
+                old_handler = signal.signal(signal.SIGALRM, on_alarm)
+                signal.setitimer(signal.ITIMER_REAL, WATCHDOG_S)
+            except (ValueError, AttributeError, OSError):      # not the main thread / no SIGALRM: the count guard remains
+                old_handler = None
             try:
                 s.evolve_until(arg)
             except ValueError:
@@ -401,8 +440,14 @@ def run_real(ops):
                 status = 'index'
             except FuelGuard:
                 status = 'fuel'
+            except Runaway as e:
+                status, why = 'runaway', str(e)
             except Exception as e:  # noqa
                 status = 'other:' + type(e).__name__
+            finally:
+                if old_handler is not None:
+                    signal.setitimer(signal.ITIMER_REAL, 0)
+                    signal.signal(signal.SIGALRM, old_handler)
             if status != 'value':
                 hz = max(hz, float(op[1]))
             t1 = fl(s.t)
@@ -412,8 +457,11 @@ def run_real(ops):
             obs.append({'T': float(op[1]), 'status': status, 't0': t0, 't1': t1, 'ctr': s.callback_counter,
                         'events': list(s.events), 'queue': queue, 'scheduled': list(scheduled), 'n_sched0': n_sched0,
                         'hz': hz, 'adds_after_horizon': adds_after_horizon, 'alias': alias,
-                        'adds_from_clock': adds_from_clock, 'wf': wf[0], 'guard': guard[0]})
+                        'adds_from_clock': adds_from_clock, 'wf': wf[0], 'guard': guard[0], 'why': why,
+                        'nrec': nrec[0]})
             alias = []
+            if status == 'runaway':
+                break           # the system is in the middle of a loop that does not end: the history stops here
     if alias and obs:
         obs[-1]['alias'] = obs[-1]['alias'] + alias
     if obs:
@@ -575,6 +623,15 @@ def oracle(obs):
             executed_before |= set(fired_keys)
             if len(fires) != o['guard']:
                 bad.append(('guard', 'the guard tripped after %d callbacks, not %d' % (len(fires), o['guard'])))
+            continue
+        if o['status'] == 'runaway':
+            # the recorder's hard guard aborted the call: termination (Lean: evolve_total_of_progress - the generated
+            # histories meet its hypothesis or are acyclic) and, on the prefix observed, exactly-once
+            twice = sorted(set(k for k in fired_keys if fired_keys.count(k) > 1))[:3] if len(fired_keys) <= KEEP_EVENTS else []
+            bad.append(('does-not-terminate', 'evolve_until(%r) from clock %r did not return: %s (%d recorded); first events %r'
+                        % (T, o['t0'], o.get('why', ''), o.get('nrec', 0), o['events'][:6])))
+            if len(set(fired_keys)) != len(fired_keys):
+                bad.append(('exactly-once', 'a callback ran twice (fired-more-than-once): %r' % (twice,)))
             continue
         if o['status'] != 'ok':
             pending = [q for q in o['queue']]
